@@ -881,7 +881,19 @@ class PureScheduler:                                    # pylint: disable=r0902
         await self._feedback(None, "scheduler is shutting down...")
 
         # the done part is of no use here
-        _, pending = await asyncio.wait(tasks, timeout=timeout)
+        try:
+            _, pending = await asyncio.wait(tasks, timeout=timeout)
+        except asyncio.CancelledError:
+            # cancelled during shutdown: do not leave the co_shutdown()
+            # methods running behind
+            pending = [task for task in tasks if not task.done()]
+            while pending:
+                try:
+                    await self._tidy_tasks(pending)
+                except asyncio.CancelledError:
+                    pass
+                pending = [task for task in pending if not task.done()]
+            raise
         # everything went fine
         # NOTE however: here we say that sub-schedulers that expired in timeout
         # should not impact the overall result; this is an arguable choice
@@ -942,6 +954,35 @@ class PureScheduler:                                    # pylint: disable=r0902
 
         No automatic shutdown is performed, user needs to explicitly call
         :meth:`co_shutdown()` or :meth:`shutdown()`.
+        """
+        try:
+            return await self._co_run()
+        except asyncio.CancelledError:
+            # we are being cancelled from the outside, typically because
+            # we are nested in a scheduler that times out or aborts;
+            # make sure to not leave our own jobs running behind
+            await self._tidy_upon_cancel()
+            raise
+
+    async def _tidy_upon_cancel(self):
+        """
+        Called when :meth:`co_run()` itself gets cancelled: cancel the jobs
+        that are still running, wait for them, and shut down; if cancelled
+        again while doing that, keep at it.
+        """
+        while True:
+            pending = [job._task for job in self.jobs
+                       if job._task is not None and not job._task.done()]
+            try:
+                await self._tidy_tasks(pending)
+                await self.co_shutdown()
+                return
+            except asyncio.CancelledError:
+                pass
+
+    async def _co_run(self):                      # pylint: disable=R0912,R0915
+        """
+        The actual implementation of :meth:`co_run()`
         """
         # create a Window no matter what; it will know what to do
         # also if jobs_window is None
